@@ -27,25 +27,26 @@
 (* For exp / log / non-integer powers other than +-1/2 the model gives     *)
 (* rule selection, exceptions and class skeleton only (kind "opaque").     *)
 (*                                                                         *)
-(* Guards the code does NOT use (recorded; TLC exhibits witnesses, the     *)
-(* conformance harness confirms that the real code returns the model's     *)
+(* Guards (recorded; where the code has none TLC exhibits witnesses and    *)
+(* the conformance harness confirms that the real code returns the model's *)
 (* wrong value):                                                           *)
 (*   PowKronGuard    = "none": pow(Kronecker, a) = Kronecker(pow(M_i, a))  *)
 (*      for every a; for a = p/q not an integer it is an identity iff q    *)
 (*      divides the winding number of every tuple of factor eigenvalues    *)
-(*      (sum of principal arguments = Arg(product) + 2 pi k);              *)
-(*   PowKronSquareGuard = "none": the same rule recurses into non-square   *)
-(*      factors of a square Kronecker product (A @ A asserts);             *)
-(*   UnaryAdjointGuard = "none": apply_unary(f, Adjoint(A)) =              *)
-(*      Adjoint(apply_unary(f, A)) needs f(conj z) = conj f(z) on the      *)
-(*      spectrum (false for f with non-real Taylor coefficients and on the *)
-(*      branch cut of sqrt / log).                                         *)
+(*      (sum of principal arguments = Arg(product) + 2 pi k);   OPEN       *)
+(*   PowKronSquareGuard: since fix 32ca66c the rule is conditional on      *)
+(*      square factors (before, it recursed into non-square factors of a   *)
+(*      square Kronecker product: mutant PowKronNoSquareGuard);            *)
+(*   UnaryAdjointGuard: since fix 415da5a apply_unary(f, Adjoint(A)) =     *)
+(*      Adjoint(apply_unary(fbar, A)) with fbar(z) = conj f(conj z), an    *)
+(*      identity for every f (before, f itself was passed on, which needs  *)
+(*      f(conj z) = conj f(z): mutant UnaryAdjointNoConj).                 *)
 (***************************************************************************)
 EXTENDS LinalgRules, Spectral, AutoChoice
 
 PowKronGuard == "none"
-PowKronSquareGuard == "none"
-UnaryAdjointGuard == "none"
+PowKronSquareGuard == "all factors square (conditional rule, fix 32ca66c)"
+UnaryAdjointGuard == "not needed: the function is conjugated (fix 415da5a)"
 
 ---------------------------------------------------------------------------
 (* 1.  Exact scalar functions on Gaussian rationals                        *)
@@ -57,7 +58,9 @@ F_Sqrt == Fn("sqrt", <<>>, <<>>, 0, "sqrt")
 F_ISqrt == Fn("isqrt", <<>>, <<>>, 0, "isqrt")
 F_Exp2 == Fn("exp2", <<>>, <<>>, 0, "exp2")             \* 2^x on integers
 F_Opaque(name) == Fn("opaque", <<>>, <<>>, 0, name)
-FExact(f) == f.k # "opaque"
+F_Bar(f) == Fn("bar", <<f>>, <<>>, 0, f.name)   \* fbar(z) = conj(f(conj(z)))
+RECURSIVE FExact(_)
+FExact(f) == IF f.k = "bar" THEN FExact(f.c[1]) ELSE f.k # "opaque"
 
 RECURSIVE Horner(_, _)
 Horner(c, x) == IF c = <<>> THEN QInt(0) ELSE QNorm(QAdd(Head(c), QMul(x, Horner(Tail(c), x))))
@@ -75,16 +78,20 @@ HasPSqrt(x) == SqCand(QNorm(x)) # {}
 PSqrt(x) == LET y == QNorm(x) IN QNorm([n |-> CHOOSE p \in SqCand(y): TRUE, d |-> y.d])
 
 QIsInt(x) == LET y == QNorm(x) IN y.d = 1 /\ y.n[2] = 0
+RECURSIVE FDef(_, _)
 FDef(f, x) ==
     CASE f.k = "poly" -> TRUE
+      [] f.k = "bar" -> FDef(f.c[1], QConj(x))
       [] f.k = "rat" -> ~QIsZero(Horner(f.d, x))
       [] f.k = "ipow" -> f.e >= 0 \/ ~QIsZero(x)
       [] f.k = "sqrt" -> HasPSqrt(x)
       [] f.k = "isqrt" -> HasPSqrt(x) /\ ~QIsZero(x)
       [] f.k = "exp2" -> QIsInt(x) /\ Abs(QNorm(x).n[1]) <= 12
       [] OTHER -> FALSE
+RECURSIVE FApp(_, _)
 FApp(f, x) ==
     CASE f.k = "poly" -> Horner(f.c, x)
+      [] f.k = "bar" -> QConj(FApp(f.c[1], QConj(x)))
       [] f.k = "rat" -> QNorm(QDiv(Horner(f.c, x), Horner(f.d, x)))
       [] f.k = "ipow" -> IF f.e >= 0 THEN QNorm(QPow(x, f.e)) ELSE QNorm(QInv(QNorm(QPow(x, -f.e))))
       [] f.k = "sqrt" -> PSqrt(x)
@@ -220,8 +227,11 @@ AURule(f, t, alg) ==
          [] cls = "Transpose" ->
                Compose(nm("Transpose"), sub,
                        N(IF Mutant = "UnaryTransposeAsAdjoint" THEN "Adjoint" ELSE "Transpose", Vals(sub), NoP))
-         \* apply_unary(f, A: Adjoint, alg):  Adjoint(apply_unary(f, A.A, alg))
-         [] cls = "Adjoint" -> Compose(nm("Adjoint"), sub, N("Adjoint", Vals(sub), NoP))
+         \* apply_unary(f, A: Adjoint, alg):  Adjoint(apply_unary(lambda z: conj(f(conj(z))), A.A, alg))
+         [] cls = "Adjoint" ->
+               LET fb == IF Mutant = "UnaryAdjointNoConj" THEN f ELSE F_Bar(f)
+                   subb == [i \in 1..Len(u.a) |-> AURule(fb, u.a[i], alg)]
+               IN Compose(nm("Adjoint"), subb, N("Adjoint", Vals(subb), NoP))
          [] OTHER -> AUBase(f, t, alg)
 
 Sfx1(hasalg) == IF hasalg THEN ",Algorithm)" ELSE ")"
@@ -302,10 +312,11 @@ RECURSIVE PowRule(_, _, _, _)
 PowRule(t, al, hasalg, alg) ==
     LET u == Strip(t)
         cls == ClassOf(t)
-    IN IF cls = "Kronecker"
-       \* pow(A: Kronecker, alpha, alg) = Kronecker(*[pow(a, alpha, alg) for a in A.Ms])      (no guard at all)
+    IN IF cls = "Kronecker" /\ (AllSquare(u) \/ Mutant = "PowKronNoSquareGuard")
+       \* @dispatch(cond=all factors square)  pow(A: Kronecker, alpha, alg) = Kronecker(*[pow(a, alpha, alg) for a in A.Ms])
+       \* (no guard on alpha)
        THEN LET sub == [i \in 1..Len(u.a) |-> PowRule(u.a[i], al, TRUE, alg)] IN
-            Compose("pow(Kronecker" \o Sfx2(hasalg), sub,
+            Compose("pow(Kronecker" \o Sfx2(hasalg) \o "?", sub,
                     N(IF Mutant = "PowKronAsKronSum" THEN "KronSum" ELSE "Kronecker", Vals(sub), NoP))
        ELSE LET nm == "pow(LinearOperator" \o Sfx2(hasalg)
                 k == RoundQ(al)
@@ -463,7 +474,7 @@ AUDomain(f, t) ==
         cls == ClassOf(t)
     IN CASE cls = "BlockDiag" -> \A i \in 1..Len(u.a): AUDomain(f, u.a[i])
          [] cls = "Transpose" -> AUDomain(f, u.a[1])
-         [] cls = "Adjoint" -> AUDomain(f, u.a[1]) /\ ConjSym(f, SpecG(u.a[1]))
+         [] cls = "Adjoint" -> AUDomain(f, u.a[1])          \* (before fix 415da5a: /\ ConjSym(f, SpecG(u.a[1])))
          [] OTHER -> TRUE
 
 \* principal argument classes of a non-zero Gaussian rational: (0, pi] "up", (-pi, 0) "low", 0 "pos"
@@ -514,10 +525,6 @@ UnarySoundAtS(t, s, f, alg) ==
     LET r == AURule(f, t, alg) IN
     (UPremS(t, s, f, r) /\ AUDomain(f, t)) => SpecEq(SpecVS(r.val, t, s), FSpecM(f, s))
 UnarySoundAt(t, f, alg) == UnarySoundAtS(t, SpecG(t), f, alg)
-UnarySoundEverywhereAt(t, f, alg) ==
-    LET r == AURule(f, t, alg)
-        s == SpecG(t)
-    IN UPremS(t, s, f, r) => SpecEq(SpecVS(r.val, t, s), FSpecM(f, s))
 
 \* pow with the exact non-integer exponents +-1/2 (sqrt, isqrt)
 PowFracSoundAtS(t, s, al, alg) ==
@@ -553,10 +560,8 @@ PowIntSoundAtS(t, s, k, alg) ==
         r == PowRule(t, [n |-> k, d |-> 1], TRUE, alg)
     IN (HasSpecG(t) /\ IsSq(t) /\ PowTameS(t, s, k) /\ UPremS(t, s, f, r)) => MEq(MatVS(r.val, t, s), SumLamP(FSpecM(f, s)))
 PowIntSoundAt(t, k, alg) == PowIntSoundAtS(t, SpecG(t), k, alg)
-\* integer powers of a square operand are never refused ... on PowSquareDomain; FAILS without it (recorded defect)
+\* integer powers of a square operand are never refused (before fix 32ca66c only on PowSquareDomain)
 PowIntCompleteAt(t, k, alg) ==
-    (IsSq(t) /\ k >= 0 /\ k <= 9 /\ PowSquareDomain(t)) => PowRule(t, [n |-> k, d |-> 1], TRUE, alg).exc \in {"none", "Unmodelled"}
-PowIntCompleteEverywhereAt(t, k, alg) ==
     (IsSq(t) /\ k >= 0 /\ k <= 9) => PowRule(t, [n |-> k, d |-> 1], TRUE, alg).exc \in {"none", "Unmodelled"}
 
 \* exp(A (+) B) = exp(A) (x) exp(B):
